@@ -7,17 +7,50 @@ W = 16
 def jobs(tier):
     q = tier == "quick"
     return [
+        # single-stream histories: buffer limit, exact CBR size, BITRATE_MAX fill, AUTO equal-size clause, tiny buffers
         Job("c05_budget", "flt-asan", "random", workers=W, cases=1000 if q else 12000, maxtime=60 if q else 600),
+        # multistream / surround / ambisonics histories
         Job("c05_ms", "flt-asan", "random", workers=W, cases=250 if q else 3000, maxtime=60 if q else 400),
+        # constrained-VBR long-run clause (>= 5 s windows): the oracle is numeric, so the optimised build carries the
+        # bulk and the frozen reference encoder runs alongside; thorough adds a sanitizer pass over the same target
         Job("c05_cvbr", "flt-opt", "random", workers=W, cases=48 if q else 600, maxtime=60 if q else 400, refs=("ref-flt",)),
-    ]
+    ] + ([] if q else [Job("c05_cvbr", "flt-asan", "random", workers=W, cases=40, maxtime=400, refs=("ref-flt",), seed_salt=5)])
 
 
 PROP = dict(
     jobs=jobs,
-    rule="TBD",
-    required_labels={"any": {}},
-    assumptions=[],
+    rule="cases = histories on one encoder: a generated configuration (cu::gen_cfg), then up to 64 steps of [optional ctl change among "
+         "bitrate (500..512000, AUTO, MAX, clamp edges, invalid values), VBR/CVBR/CBR, DTX, complexity, forced mode, bandwidth, FEC, forced "
+         "channels, signal hint, reset] + one encode call (duration 2.5..120 ms, max_data_bytes dense at 1..8, CBR size +-2, 1274..1279, up to 4000, "
+         "two buffer layouts, int16/float entry point), oracles after every call; c05_ms does the same on multistream/surround/ambisonics encoders; "
+         "c05_cvbr measures >= 5 s CVBR windows after a random preamble. Non-trivial = a CBR packet whose size was predicted and differs from "
+         "max_data_bytes, or a buffer below 8 bytes (3 bytes per stream + 3), or a VBR<->CBR switch in the history (c05_cvbr: window above the low-budget floor); "
+         "distinct = hash of (Fs, channels, application, per step: duration, buffer bucket, rate-control mode, bitrate bucket).",
+    required_labels={"any": {
+        "c05_budget/cbr-exact": 600, "c05_budget/cbr-exact-multiframe": 300, "c05_budget/cbr-capped-by-max": 400, "c05_budget/cbr-capped-1276": 100,
+        "c05_budget/cbr-floor-1": 50, "c05_budget/cbr-max-fill": 100, "c05_budget/cbr-max-multiframe-over-1276": 30, "c05_budget/cbr-auto": 140,
+        "c05_budget/tiny-buffer": 800, "c05_budget/too-small-error": 30, "c05_budget/layout:guard": 900, "c05_budget/vbr-cbr-switch": 400,
+        "c05_budget/mode:silk": 700, "c05_budget/mode:hybrid": 300, "c05_budget/mode:celt": 1000,
+        "c05_ms/cbr-uncapped": 150, "c05_ms/cbr-explicit-close": 100, "c05_ms/cbr-max-fill": 25, "c05_ms/too-small-error": 150, "c05_ms/tiny-buffer": 250,
+        "c05_cvbr/class:celt": 30, "c05_cvbr/class:celt-short": 10, "c05_cvbr/class:lp": 9, "c05_cvbr/class:lp-low": 14, "c05_cvbr/above-target": 25,
+    }},
+    assumptions=[
+        "OPUS_SET_BITRATE semantics as documented in opus_defines.h: AUTO/MAX accepted, other values <= 0 rejected, the rest clamped to [500, 300000*channels] (multistream: [500, 300000]*channels).",
+        "A DTX packet (exempt from the exact-size clause) is a packet of <= 2 bytes produced while OPUS_SET_DTX(1) is in force.",
+        "The 1276-byte cap binds every CBR packet with an explicit bitrate, also multi-frame ones (40..120 ms); with OPUS_BITRATE_MAX a single-frame packet fills min(max_data_bytes,1276) and a multi-frame packet fills max_data_bytes without cap (read from src/opus_encoder.c and confirmed by the check).",
+        "Multistream CBR totals are compared with bitrate*duration/8 to within one byte: the multistream encoder truncates where the single-stream encoder rounds.",
+        "A negative return is accepted only as OPUS_BUFFER_TOO_SMALL with max_data_bytes <= 2 (multistream: fewer than 3 bytes per stream); max_data_bytes == 0 must be rejected.",
+        "CVBR clause: mean rate over a >= 5 s window at constant settings <= requested bitrate + class allowance from calib/C05.json (2x the largest excess seen on the unchanged tree; classes by observable packet modes, per-channel bitrate and frame duration; lp-low = SILK layer below 16 kb/s per channel where the rate control is loose by design), and, when above the target, <= 1.02 x the frozen reference encoder on the same calls. Budgets below 3 bytes per packet (or below 2400 b/s for frames > 20 ms) only assert len <= 2.",
+        "The frozen reference is the pinned snapshot b5b845fb (float, gcc); it cannot reveal a rate-control defect the snapshot already had (F18 was found by the absolute bound).",
+    ],
 )
 
-TEXT = dict(technique="TBD", level="TBD", note="TBD")
+TEXT = dict(
+    technique="stateful property-based testing (generated ctl/encode histories on one encoder) with an exact rational size model, the RFC 6716 framing model, a lock-step tree decoder, ASan exact-size buffers plus software guard bytes, and a calibrated + differential (frozen reference encoder) long-run rate bound",
+    level="Exploration. Every encode call of every generated history (single-stream, multistream, surround, ambisonics) is checked for the return range, untouched memory beyond max_data_bytes, "
+          "model-valid framing with the right duration, decodability and - with VBR off - the exact size round(bitrate*T/8) clipped to [1,min(max,1276)] (explicit bitrates incl. both clamps), "
+          "buffer fill with OPUS_BITRATE_MAX and equal sizes with OPUS_AUTO; >= 5 s constrained-VBR windows are held against calibrated class allowances and the frozen reference encoder. "
+          "No claim beyond the sampled histories.",
+    note="Trusted: engine/rfc_framing.hpp, the tree decoder for the decodability clause, ASan/UBSan, calib/C05.json (tools/c05_calibrate.py, 16 k windows, seeds 11-14, tree dd442894). "
+         "Findings made with this check: F13 (OPUS_INTERNAL_ERROR for multi-frame packets, fixed 71accbd3) and F18 (hybrid VBR at very low bitrates filled the buffer, fixed dd442894; regression case corpus/C05/fixed/F18-hybrid-vbr-bitrate-max.case).",
+)
